@@ -353,7 +353,11 @@ func propC01(c *Ctx) {
 	ri := c.Rule("eval-inherit", "the evaluator re-inherits disabled and shadowed builtin names before compiling each candidate expression", 3)
 	if roles := resolveSymtabRoles(c, ri); roles != nil {
 		ruleEvalInherit(c, ri, roles)
+		rra := c.Rule("reset-always", "the function that prepares the optimizer's evaluator empties its symbol table on every path (reset or a new table) before the builtin states are inherited", 1)
+		ruleResetAlways(c, rra, roles)
 	}
+	rla := c.Rule("assign-lhs-all", "the optimizer registers every target of an assignment / definition as shadowing: the registering loop is bounded by the length of the left-hand side", 1)
+	ruleAssignLHSAll(c, rla)
 	rsd := c.Rule("shadow-define", "every symbol-table definer records that the name shadows a builtin (the compiler-side source of the evaluator's shadow set)", 4)
 	ruleShadowDefine(c, rsd)
 }
